@@ -51,6 +51,22 @@ def run(ck, bindgen, tmp, quick):
         h = os.path.join(tmp, "al%d.h" % b)
         open(h, "w").write(hdr)
         lay = clang_layouts(h, tmp, "al%d" % b)
+        # what CompInfo::is_packed can see: the record's alignment and the alignments of its raw fields' types
+        pr = '#include <stdio.h>\n#include "%s"\nint main(void) {\n' % os.path.basename(h)
+        for rec in recs:
+            als = ["_Alignof(__typeof__(((%s %s *)0)->%s))" % (rec.kind, rec.name, m["name"]) for m in rec.members if m["name"] and not m["bitfield"]]
+            als += [str(TYPES[m["bitfield"][0]][1]) for m in rec.members if m["bitfield"]]
+            pr += '  { unsigned long mx = 0, a; %s printf("%s %%lu %%lu\\n", (unsigned long)_Alignof(%s %s), mx); }\n' % (
+                " ".join("a = %s; if (a > mx) mx = a;" % x for x in als), rec.name, rec.kind, rec.name)
+        pr += "  return 0; }\n"
+        open(os.path.join(tmp, "pa%d.c" % b), "w").write(pr)
+        aligns = {}
+        rcp, op, ep = sh2(["clang", "-std=gnu11", "-w", "-o", "pa%d" % b, "pa%d.c" % b], cwd=tmp, timeout=120)
+        if rcp == 0:
+            rcp, op, ep = sh2([os.path.join(tmp, "pa%d" % b)], timeout=60)
+            for line in op.splitlines():
+                n, ra, mx = line.split()
+                aligns[n] = (int(ra), int(mx))
         rc, out, err, d = irdump.run_dump(bindgen, h, ["--no-layout-tests"], [], cwd=tmp, log=os.path.join(tmp, "allog%d" % b))
         # where rustc puts each allocation unit of each struct (the theorems of C03/Compose*.v take that byte offset as a hypothesis)
         unit_at = {}
@@ -72,11 +88,12 @@ def run(ck, bindgen, tmp, quick):
                     unit_at.setdefault(n, []).append(int(v))
             else:
                 unit_at = None        # (the bindings of this header do not compile: C02's business, known classes E0587 / E0588 ...)
-        return j, lay, rc, d, unit_at
+        return j, lay, rc, d, unit_at, aligns
     with ThreadPoolExecutor(max_workers=vlib.NCPU) as ex:
         results = list(ex.map(one, jobs))
     rows, metas, hdr_of = [], [], {}
-    for (b, recs, hdr), lay, rc, d, unit_at in results:
+    distance_bad = []
+    for (b, recs, hdr), lay, rc, d, unit_at, aligns in results:
         if lay is None:
             raise TieBroken("clang-record-layouts", "clang could not dump the layouts of a generated header")
         if rc != 0 or d is None or not d.complete:
@@ -114,7 +131,12 @@ def run(ck, bindgen, tmp, quick):
             if len(runs) != len(units):
                 ck.broken("correspondence", "number of allocation units vs runs of bit-fields", json.dumps({"record": rec.text(), "runs": len(runs), "units": len(units)}))
                 continue
-            packed = it.get("packed") == "1"
+            # the flag bitfields_to_allocation_units was really called with (hook lines BFUNITS / BFPACKED): CompInfo::is_packed looks at the
+            # RAW fields at that time (a bit-field's declared type may be more aligned than a #pragma pack'ed record), and answers
+            # differently once the fields have been grouped into units, which is when the dump is written
+            packed = d.bfpacked.get(i, it.get("packed") == "1")
+            if i not in d.bfpacked:
+                ck.count("alloc_packed_flag_from_dump_not_hook")
             # hypothesis of the composition theorems: the unit of a run sits at the byte where the run's first field starts in C
             if rec.kind == "struct" and unit_at and rec.name in unit_at and len(unit_at[rec.name]) == len(runs):
                 for k, (run_, at) in enumerate(zip(runs, unit_at[rec.name])):
@@ -130,6 +152,15 @@ def run(ck, bindgen, tmp, quick):
                 ck.count("alloc_headers_whose_bindings_do_not_compile")
             for run_, u in zip(runs, units):
                 impl = [(bf["off"], bf["width"]) for bf in u["bitfields"]]
+                # the conclusion of C03/AllocProperties.v fields_keep_their_c_offsets evaluated on the implementation's own unit, whatever
+                # `packed` flag it was built with: the fields of a struct's run keep their distances (clang's bit offsets)
+                if rec.kind == "struct":
+                    cl = [(o, w) for (w, al, sz, o, nm) in run_] if len(impl) == len(run_) else [(o, w) for (w, al, sz, o, nm) in run_ if nm]
+                    if len(cl) == len(impl):
+                        nz = [k for k in range(len(cl)) if cl[k][1] > 0]
+                        bad = [k for k in nz if impl[k][0] - impl[nz[0]][0] != cl[k][0] - cl[nz[0]][0]]
+                        if bad:
+                            distance_bad.append((rec, run_, u, packed, bad, aligns.get(rec.name)))
                 rows.append("(%s, [%s], %d, [%s])" % ("true" if packed else "false",
                                                       "; ".join("{| bw := %d; bal := %d; bsz := %d; boff := Some %d; bnamed := %s |}" % (w, al, sz, o, "true" if nm else "false") for (w, al, sz, o, nm) in run_),
                                                       u["size"], "; ".join("(%d, %d)" % x for x in impl)))
@@ -176,6 +207,26 @@ Eval vm_compute in nohyp 0 rows.
         raise TieBroken("coq-eval:C03/alloc", out[-2500:])
     import c03_e2e
     searched = set()
+    unexplained = 0
+    for rec, run_, u, packed, bad, al in distance_bad[:12]:
+        info = {"record": rec.text(), "packed flag used by bindgen": packed, "run (width, align, size, clang bit offset, named)": run_,
+                "implementation_unit": [(b_["off"], b_["width"], b_["name"]) for b_ in u["bitfields"]], "fields whose distance from the first differs from C": bad,
+                "record alignment / largest field-type alignment": al}
+        if "pragma-pack" in rec.features and not packed and al and al[1] <= al[0]:
+            # #pragma pack(N) that does not lower the record's alignment below any field type's: invisible to CompInfo::is_packed (libclang
+            # does not expose the pragma), yet clang packs the bit-fields back to back
+            if not ck.violation("C03-pragma-pack-undetected", "a record under #pragma pack(N) whose alignment is not below any of its field types' is not recognised as packed: bit-fields that clang lays out back "
+                                "to back are re-aligned to their declared type, so accessors use other bits than C", info):
+                continue
+        unexplained += 1
+        if rec.name + rec.text() not in searched and any(m["bitfield"] and m["name"] for m in rec.members):
+            searched.add(rec.name + rec.text())
+            hdr = hdr_of[id(rec)]
+            res = c03_e2e.exercise(bindgen, tmp, "dist_%s" % rec.name, [rec], hdr, 13, allow=rec.name)
+            c03_e2e.judge(ck, rec, res, hdr)
+        ck.broken("property-on-implementation", "C03/AllocProperties.v fields_keep_their_c_offsets (conclusion evaluated on the unit bindgen built)", json.dumps(info))
+    ck.obligation("property-on-implementation:fields of every struct unit keep their C distances", unexplained == 0,
+                  "%d units with a wrong distance, %d outside the known blind spot of #pragma pack detection" % (len(distance_bad), unexplained))
     for i in ls[0][:5]:
         rec, run_, u, packed = metas[i]
         # search for a concrete failing input: the accessors of this record against C setters / getters
